@@ -18,6 +18,9 @@ rc, out = sh("git apply --check %s/patch.diff" % sd, wt)
 if rc: print("patch does not apply:", out); sys.exit(1)
 demo_cmd = ("g++ -std=c++17 -O1 -g -pthread -I {wt} -I {wt}/dispenso/third-party {sd}/demo.cpp {wt}/_b/dispenso/libdispenso.so "
             "-Wl,-rpath,{wt}/_b/dispenso -o {sd}/demo.bin && timeout 400 {sd}/demo.bin").format(wt=wt, sd=sd)
+if os.environ.get("SEED_DEMO_CMD"):   # demonstrations that need a non-default build configuration
+    demo_cmd = os.environ["SEED_DEMO_CMD"].format(wt=wt, sd=sd)
+    res["demo_cmd"] = os.environ["SEED_DEMO_CMD"]
 sh("git apply %s/patch.diff" % sd, wt)
 rc, out = sh("cmake --build _b -j8", wt)
 res["builds_with_patch"] = rc == 0
